@@ -184,37 +184,62 @@ def run_cvc5(smt2, timeout_s):
         os.unlink(name)
 
 
-def solve_text(txt, timeout_ms, use_fallbacks=True):
-    """decide one SMT-LIB query in a fresh z3 context (deterministic: no shared term table);
-    fall back to the z3 4.8.12 and cvc5 command-line solvers when z3 5.1 answers unknown."""
-    t0 = time.time()
+def _z3_once(txt, timeout_ms, seed):
     ctx = z3.Context()
     s = z3.Solver(ctx=ctx)
     s.set('timeout', timeout_ms)
+    if seed:
+        s.set('random_seed', seed)
+        s.set('seed', seed)
     s.from_string(txt)
     r = s.check()
-    backend = 'z3-' + z3.get_version_string()
     detail = ''
-    if r == z3.unsat:
-        status = 'proved'
-    elif r == z3.sat:
-        status = 'failed'
+    if r == z3.sat:
         try:
             detail = str(s.model())[:4000]
         except Exception:
             pass
-    else:
-        status = 'unknown'
+    elif r != z3.unsat:
         detail = s.reason_unknown()
-        if use_fallbacks:
+    res = 'unsat' if r == z3.unsat else ('sat' if r == z3.sat else 'unknown')
+    del s, ctx
+    return res, detail
+
+
+def solve_text(txt, timeout_ms, use_fallbacks=True):
+    """decide one SMT-LIB query: fresh z3 context per attempt (deterministic, no shared term table).
+
+    Portfolio: z3 5.1 with a short budget, then other random seeds (quantifier instantiation order is the usual
+    reason for an `unknown`), then the full budget, then z3 4.8.12 and cvc5 on the command line.
+    Only `unsat` from some back end counts as proved; `sat` -> failed; anything else -> unknown."""
+    t0 = time.time()
+    backend = 'z3-' + z3.get_version_string()
+    short = min(timeout_ms, 2500)
+    r, detail = _z3_once(txt, short, 0)
+    status = {'unsat': 'proved', 'sat': 'failed'}.get(r, 'unknown')
+    if status == 'unknown' and use_fallbacks:
+        for seed in (1, 2, 3):
+            r, d2 = _z3_once(txt, short, seed)
+            if r == 'unsat':
+                status, backend = 'proved', backend + '(seed %d)' % seed
+                break
+            if r == 'sat':
+                status, detail = 'failed', d2
+                break
+        if status == 'unknown':
             r2 = run_z3_cli(txt, max(2, timeout_ms // 2000))
             if r2 == 'unsat':
                 status, backend = 'proved', 'z3-4.8.12-cli'
-            else:
+            elif timeout_ms > short:
+                r, d2 = _z3_once(txt, timeout_ms, 0)
+                if r == 'unsat':
+                    status = 'proved'
+                elif r == 'sat':
+                    status, detail = 'failed', d2
+            if status == 'unknown':
                 r3 = run_cvc5(txt, max(2, timeout_ms // 2000))
                 if r3 == 'unsat':
                     status, backend = 'proved', 'cvc5-1.0.3'
-    del s, ctx
     return status, backend, detail, time.time() - t0
 
 
